@@ -71,6 +71,71 @@ type Term struct {
 	Bound []*Term
 	I, J  int
 	key   string
+	h     uint64
+}
+
+// hash: structural hash (cached); equal terms have equal hashes
+func (t *Term) hash() uint64 {
+	if t.h != 0 {
+		return t.h
+	}
+	h := uint64(1469598103934665603)
+	mix := func(s string) {
+		for i := 0; i < len(s); i++ {
+			h ^= uint64(s[i])
+			h *= 1099511628211
+		}
+	}
+	mix(t.Op)
+	mix(t.Name)
+	if t.S != nil {
+		mix(t.S.str)
+	}
+	if t.Val != nil {
+		mix(t.Val.String())
+	}
+	h ^= uint64(t.I)*31 + uint64(t.J)*17
+	for _, b := range t.Bound {
+		mix(b.Name)
+	}
+	for _, a := range t.Args {
+		h = h*1099511628211 ^ a.hash()
+	}
+	if h == 0 {
+		h = 1
+	}
+	t.h = h
+	return h
+}
+
+// sameTerm: structural equality (pointer / hash fast paths)
+func sameTerm(a, b *Term) bool {
+	if a == b {
+		return true
+	}
+	if a.hash() != b.hash() {
+		return false
+	}
+	if a.Op != b.Op || a.Name != b.Name || len(a.Args) != len(b.Args) || a.S != b.S || a.I != b.I || a.J != b.J {
+		return false
+	}
+	if (a.Val == nil) != (b.Val == nil) || (a.Val != nil && a.Val.Cmp(b.Val) != 0) {
+		return false
+	}
+	if len(a.Bound) != len(b.Bound) {
+		return false
+	}
+	for i := range a.Bound {
+		if a.Bound[i].Name != b.Bound[i].Name {
+			return false
+		}
+	}
+	for i := range a.Args {
+		if !sameTerm(a.Args[i], b.Args[i]) {
+			return false
+		}
+	}
+	return true
 }
 
 func (t *Term) Key() string {
@@ -303,7 +368,7 @@ func Eq(a, b *Term) *Term {
 			return Not(a)
 		}
 	}
-	if a.Key() == b.Key() {
+	if sameTerm(a, b) {
 		return True
 	}
 	return &Term{Op: "=", S: BoolSort, Args: []*Term{a, b}}
@@ -319,7 +384,7 @@ func Ite(c, a, b *Term) *Term {
 	if a.S != b.S {
 		panic(fmt.Sprintf("Ite sort mismatch %s vs %s", a.S, b.S))
 	}
-	if a.Key() == b.Key() {
+	if sameTerm(a, b) {
 		return a
 	}
 	if a.S == BoolSort {
@@ -344,14 +409,10 @@ func Select(arr, idx *Term) *Term {
 	a := arr
 	for a.Op == "store" {
 		si := a.Args[1]
-		if si.Key() == idx.Key() {
+		if sameTerm(si, idx) {
 			return a.Args[2]
 		}
-		if si.IsConst() && idx.IsConst() {
-			a = a.Args[0]
-			continue
-		}
-		if d, ok := constDiff(si, idx); ok && d != 0 {
+		if definitelyDistinct(si, idx) {
 			a = a.Args[0]
 			continue
 		}
@@ -361,6 +422,25 @@ func Select(arr, idx *Term) *Term {
 		return a.Args[0]
 	}
 	return &Term{Op: "select", S: arr.S.Elem, Args: []*Term{a, idx}}
+}
+
+// definitelyDistinct: syntactic proof that two index terms differ
+func definitelyDistinct(a, b *Term) bool {
+	if a.IsConst() && b.IsConst() {
+		return a.Val.Cmp(b.Val) != 0
+	}
+	if d, ok := constDiff(a, b); ok && d != 0 {
+		return true
+	}
+	// injective constructors (sub-object references, element references)
+	if a.Op == "app" && b.Op == "app" && a.Name == b.Name && len(a.Args) == len(b.Args) && (strings.HasPrefix(a.Name, "sub_") || a.Name == "elemref") {
+		for i := range a.Args {
+			if definitelyDistinct(a.Args[i], b.Args[i]) {
+				return true
+			}
+		}
+	}
+	return false
 }
 
 // constDiff reports a-b when both are base+const over the same base
@@ -373,7 +453,7 @@ func constDiff(a, b *Term) (int64, bool) {
 		}
 		return 0, false
 	}
-	if ba.Key() == bb.Key() {
+	if sameTerm(ba, bb) {
 		return ca - cb, true
 	}
 	return 0, false
@@ -528,14 +608,14 @@ func BVOp(op string, a, b *Term) *Term {
 		if b.IsConst() && b.Val.Sign() == 0 {
 			return a
 		}
-		if a.Key() == b.Key() {
+		if sameTerm(a, b) {
 			return ConstI(a.S, 0)
 		}
 		if b.IsConst() {
 			return BVOp("bvadd", a, Const(a.S, new(big.Int).Neg(b.Val)))
 		}
 		// (x + c) - x -> c
-		if a.Op == "bvadd" && a.Args[0].Key() == b.Key() {
+		if a.Op == "bvadd" && sameTerm(a.Args[0], b) {
 			return a.Args[1]
 		}
 	case "bvmul":
@@ -697,13 +777,13 @@ func IntOp(op string, a, b *Term) *Term {
 		if b.IsConst() && b.Val.Sign() == 0 {
 			return a
 		}
-		if a.Key() == b.Key() {
+		if sameTerm(a, b) {
 			return ConstI(IntSort, 0)
 		}
 		if b.IsConst() {
 			return IntOp("+", a, Const(IntSort, new(big.Int).Neg(b.Val)))
 		}
-		if a.Op == "+" && len(a.Args) == 2 && a.Args[0].Key() == b.Key() {
+		if a.Op == "+" && len(a.Args) == 2 && sameTerm(a.Args[0], b) {
 			return a.Args[1]
 		}
 	case "*":
@@ -734,7 +814,7 @@ func IntCmp(op string, a, b *Term) *Term {
 	return &Term{Op: op, S: BoolSort, Args: []*Term{a, b}}
 }
 
-// Subst replaces variables / whole subterms (by key) in t.
+// Subst replaces free variables (by name) in t.
 func Subst(t *Term, m map[string]*Term) *Term {
 	if len(m) == 0 {
 		return t
@@ -745,9 +825,13 @@ func Subst(t *Term, m map[string]*Term) *Term {
 		if r, ok := cache[t]; ok {
 			return r
 		}
-		if r, ok := m[t.Key()]; ok {
-			cache[t] = r
-			return r
+		if t.Op == "var" {
+			if r, ok := m[t.Name]; ok {
+				cache[t] = r
+				return r
+			}
+			cache[t] = t
+			return t
 		}
 		if len(t.Args) == 0 {
 			cache[t] = t
